@@ -61,8 +61,12 @@ func HostileDoc(depth int) *rapid.Generator[bson.D] {
 				// plain fields with numbers / arrays of numbers so that
 				// operators get to their value logic
 				var v interface{} = boundaryNumber().Draw(t, "pnum")
-				if rapid.IntRange(0, 3).Draw(t, "parr") == 0 {
+				switch rapid.IntRange(0, 5).Draw(t, "parr") {
+				case 0:
 					v = bson.A{v, boundaryNumber().Draw(t, "pnum2")}
+				case 1:
+					// binary data: the bit operators read it byte-wise
+					v = primitive.Binary{Subtype: rapid.SampledFrom([]byte{0, 0, 4, 128}).Draw(t, "pbst"), Data: rapid.SliceOfN(rapid.Byte(), 0, 10).Draw(t, "pbin")}
 				}
 				d = append(d, bson.E{Key: rapid.SampledFrom(Keys).Draw(t, "pkey"), Value: v})
 				continue
